@@ -33,11 +33,12 @@ type Seam struct {
 
 // Report is what the rewriter found and did.
 type Report struct {
-	Module   string   `json:"module"`
-	Seams    []Seam   `json:"seams"`
-	Unseamed []string `json:"unseamed"` // nondeterminism sources without a seam: the check must not pass silently
-	Files    []string `json:"files_rewritten"`
-	MainPkgs []string `json:"main_pkgs"`
+	Module        string   `json:"module"`
+	Seams         []Seam   `json:"seams"`
+	Unseamed      []string `json:"unseamed"` // nondeterminism sources without a seam: the check must not pass silently
+	Files         []string `json:"files_rewritten"`
+	MainPkgs      []string `json:"main_pkgs"`
+	PreemptPoints int      `json:"preempt_points"`
 }
 
 type listPkg struct {
@@ -200,9 +201,9 @@ func rewritePkg(fset *token.FileSet, imp types.Importer, root string, p *listPkg
 		return nil
 	}
 	info := &types.Info{
-		Types: map[ast.Expr]types.TypeAndValue{},
-		Uses:  map[*ast.Ident]types.Object{},
-		Defs:  map[*ast.Ident]types.Object{},
+		Types:      map[ast.Expr]types.TypeAndValue{},
+		Uses:       map[*ast.Ident]types.Object{},
+		Defs:       map[*ast.Ident]types.Object{},
 		Selections: map[*ast.SelectorExpr]*types.Selection{},
 	}
 	var terrs []string
@@ -340,6 +341,26 @@ func (rw *fileRewriter) rewriteGoStmts() {
 		}
 		return &ast.CallExpr{Fun: rw.simSel(repl), Args: args}
 	}
+	onceCall := func(call *ast.CallExpr) *ast.CallExpr {
+		sel, ok := call.Fun.(*ast.SelectorExpr)
+		if !ok || len(call.Args) != 1 {
+			return nil
+		}
+		selection := rw.info.Selections[sel]
+		if selection == nil {
+			return nil
+		}
+		fn, ok := selection.Obj().(*types.Func)
+		if !ok || fn.FullName() != "(*sync.Once).Do" {
+			return nil
+		}
+		var recv ast.Expr = sel.X
+		if _, isPtr := rw.info.TypeOf(sel.X).Underlying().(*types.Pointer); !isPtr {
+			recv = &ast.UnaryExpr{Op: token.AND, X: sel.X}
+		}
+		rw.seam("once", call.Pos(), fn.FullName())
+		return &ast.CallExpr{Fun: rw.simSel("OnceDo"), Args: []ast.Expr{rw.siteLit(call.Pos()), recv, call.Args[0]}}
+	}
 	fix := func(list []ast.Stmt) []ast.Stmt {
 		has := false
 		for _, st := range list {
@@ -370,6 +391,8 @@ func (rw *fileRewriter) rewriteGoStmts() {
 			case *ast.ExprStmt:
 				if c, ok := x.X.(*ast.CallExpr); ok {
 					if r := lockCall(c); r != nil {
+						x.X = r
+					} else if r := onceCall(c); r != nil {
 						x.X = r
 					}
 				}
@@ -435,8 +458,110 @@ func (rw *fileRewriter) rewriteGoStmts() {
 	})
 }
 
+// rewritePreempt inserts preemption points: at the entry of every function
+// body and in front of every simple statement that mentions a package-level
+// variable of the module (the only state two goroutines inside repository
+// code can share without passing it to each other). simrt.Preempt is a no-op
+// outside preemptive bubble worlds; inside one it parks the goroutine at a
+// seed-determined subset of the points so that the scheduler decides who
+// continues. This is what lets several simulated host threads be INSIDE
+// FormatPacketDslExport at once with an interleaving the choice log owns.
+func (rw *fileRewriter) rewritePreempt() {
+	if os.Getenv("VERIF_NO_PREEMPT") != "" {
+		return
+	}
+	pre := func(pos token.Pos) ast.Stmt {
+		return &ast.ExprStmt{X: &ast.CallExpr{Fun: rw.simSel("Preempt"), Args: []ast.Expr{rw.siteLit(pos)}}}
+	}
+	// does e (not descending into function literals) mention a package-level variable of the module?
+	mentions := func(nodes ...ast.Node) bool {
+		found := false
+		for _, n := range nodes {
+			if n == nil || found {
+				continue
+			}
+			ast.Inspect(n, func(m ast.Node) bool {
+				if found {
+					return false
+				}
+				switch x := m.(type) {
+				case *ast.FuncLit:
+					return false
+				case *ast.Ident:
+					if v, ok := rw.info.Uses[x].(*types.Var); ok && v.Pkg() != nil && !v.IsField() &&
+						v.Parent() == v.Pkg().Scope() && (v.Pkg().Path() == rw.modPath || strings.HasPrefix(v.Pkg().Path(), rw.modPath+"/")) {
+						found = true
+					}
+				}
+				return true
+			})
+		}
+		return found
+	}
+	nn := func(e ast.Expr) ast.Node {
+		if e == nil {
+			return nil
+		}
+		return e
+	}
+	ns := func(s ast.Stmt) ast.Node {
+		if s == nil {
+			return nil
+		}
+		return s
+	}
+	fix := func(list []ast.Stmt) []ast.Stmt {
+		var out []ast.Stmt
+		for _, st := range list {
+			hit := false
+			switch x := st.(type) {
+			case *ast.AssignStmt, *ast.ExprStmt, *ast.IncDecStmt, *ast.ReturnStmt, *ast.SendStmt, *ast.DeferStmt, *ast.GoStmt:
+				hit = mentions(st)
+			case *ast.DeclStmt:
+				hit = mentions(st)
+			case *ast.IfStmt:
+				hit = mentions(ns(x.Init), nn(x.Cond))
+			case *ast.ForStmt:
+				hit = mentions(ns(x.Init), nn(x.Cond), ns(x.Post))
+			case *ast.RangeStmt:
+				hit = mentions(nn(x.X))
+			case *ast.SwitchStmt:
+				hit = mentions(ns(x.Init), nn(x.Tag))
+			case *ast.TypeSwitchStmt:
+				hit = mentions(ns(x.Init), ns(x.Assign))
+			}
+			if hit {
+				rw.rep.PreemptPoints++
+				out = append(out, pre(st.Pos()))
+			}
+			out = append(out, st)
+		}
+		return out
+	}
+	ast.Inspect(rw.file, func(n ast.Node) bool {
+		switch x := n.(type) {
+		case *ast.BlockStmt:
+			x.List = fix(x.List)
+		case *ast.CaseClause:
+			x.Body = fix(x.Body)
+		case *ast.CommClause:
+			x.Body = fix(x.Body)
+		}
+		return true
+	})
+	for _, d := range rw.file.Decls {
+		fd, ok := d.(*ast.FuncDecl)
+		if !ok || fd.Body == nil {
+			continue
+		}
+		rw.rep.PreemptPoints++
+		fd.Body.List = append([]ast.Stmt{pre(fd.Body.Lbrace)}, fd.Body.List...)
+	}
+}
+
 func (rw *fileRewriter) run(isMain bool) {
 	rw.rewriteGoStmts()
+	rw.rewritePreempt()
 	handled := map[*ast.SelectorExpr]bool{}
 	ast.Inspect(rw.file, func(n ast.Node) bool {
 		switch x := n.(type) {
